@@ -433,6 +433,7 @@ def gen_spec(rng, thorough=False):
             c = custom('column')
             if c is not None: a['column'] = c
             if a['kind'] == 'PrimaryKey': a.pop('unique', None)
+            if rng.random() < 0.03: a.pop('column', None); a['columns'] = ['m1', 'm2']
             e['attrs'].append(a)
         if rng.random() < 0.08 and is_root(e):
             e['attrs'].append({'name': attr_name(e['used']), 'type': 'str', 'kind': 'Discriminator', 'column': custom('column')})
@@ -463,6 +464,7 @@ def gen_spec(rng, thorough=False):
                 a2['kind'] = 'PrimaryKey'; e2['own_pk'] = True
             if rng.random() < 0.3: a2['column'] = custom('column')
             if rng.random() < 0.3: a2['index'] = rng.choice([True, False, custom('index')])
+            if rng.random() < 0.12: a2.pop('column', None); a2['columns'] = rng.choice([['r1', 'r2'], ['r1', 'R1'], ['r1']])
             if rng.random() < 0.3: a2['fk_name'] = custom('fk')
             if rng.random() < 0.15: a2['unique'] = True
             if rng.random() < 0.05: a1['table'] = 'bad_t'
